@@ -95,10 +95,15 @@ E9 = E('E9', 'deep', [('A', 'unit', []), ('B', 'unit', [])], cparams=[CP('K', 'u
 
 Z21 = S('Z21', 'zero', [('a', u32)], reprs=['C', 'align(64)'])
 Z22 = S('Z22', 'zero', [('r', Rg('RangeTo', U(Z12))), ('k', u8)], reprs=['C'])
+D23 = S('D23', 'none', [('x', Arr(u8, 'N')), ('a', Pm('A'))], tparams=[TP('A')], cparams=[CP('N', 'usize')], order=['N', 'A'])
+D24 = S('D24', 'none', [('0', Pm('A')), ('1', Arr(u16, 'N')), ('2', Pm('B'))], kind='tuple', tparams=[TP('A'), TP('B')],
+        cparams=[CP('N', 'usize')], order=['A', 'N', 'B'])
+E10 = E('E10', 'none', [('L', 'tuple', [('0', Pm('A'))]), ('M', 'named', [('k', Arr(u8, 'N')), ('b', Pm('B'))])], tparams=[TP('A'), TP('B', ['Clone'])],
+        cparams=[CP('N', 'usize')], order=['A', 'N', 'B'])
 PRE = S('Pre', 'none', [('pad', STR), ('v', Pm('A'))], tparams=[TP('A')])
 
 DEEP_DEFS = [D1, D2, D3, D4, D5, D6, D7, D8, D9, D10, D11, D12, D13, D14, D15, D16, D17, D18, D19, D20, D21, D22,
-             E1, E2, E3, E4, E5, E6, E7, E8, E9, PRE, Z21, Z22]
+             E1, E2, E3, E4, E5, E6, E7, E8, E9, PRE, Z21, Z22, D23, D24, E10]
 
 DEFS = ZERO_DEFS + DEEP_DEFS
 
@@ -143,6 +148,9 @@ def user_roots():
               Vec(U(Z7)), U(Z13), Vec(U(ZE3)), Opt(Vec(u64)), U(D9), U(Z21), Vec(U(Z21))]:
         r.append(U(PRE, [t]))
     r += [U(Z21), Vec(U(Z21)), Opt(U(Z21)), Arr(U(Z21), 2)]
+    # type parameters declared after / around const parameters, bounded enum parameters
+    r += [U(D23, [Vec(i32)], [3]), U(D23, [STR], [0]), U(D24, [Vec(u8), STR], [2]), U(D24, [u8, Vec(U(Z1))], [1]),
+          U(E10, [Vec(u64), STR], [2]), U(E10, [STR, Vec(u16)], [0]), Vec(U(D23, [Vec(u16)], [1]))]
     # alignment units that are not a power of two (size_of of a range of a 12-byte type)
     r += [Vec(Rg('RangeTo', U(Z12))), U(Z22), Vec(U(Z22)), Arr(Rg('RangeToInclusive', U(Z12)), 2)]
     return r
@@ -234,10 +242,19 @@ def seq_elems():
     return z, d
 
 
+import os as _os
+if _os.environ.get('VERIF_PINNED_CORPUS'):
+    # writing corpus lines with the pinned build: leave out the definitions
+    # that only compile since a fix: commit (bounded ε-copied enum parameter)
+    DEFS = [d for d in DEFS if d is not E10]
+
+
 def roots():
     out = []
     seen = set()
     for t in builtin_roots() + user_roots():
+        if _os.environ.get('VERIF_PINNED_CORPUS') and 'E10' in t.rust():
+            continue
         if t.rust() not in seen and valid(t):
             seen.add(t.rust())
             out.append(t)
